@@ -445,6 +445,18 @@ pub fn verify<S: MlDsa>(seed: u64, nacc: usize, nrand: usize, stress: bool, out:
                 emit_verify::<S>(out, &format!("4f forged base, c~ byte {} bit {} changed (reject)", pos, bit), &f.pk, &mp, &s3, &[], "pure", true);
             }
         }
+        // changes of c~ that PRESERVE an aggregate of its bytes (sum, XOR, multiset): a final comparison folded into one
+        // accumulator instead of byte-by-byte equality accepts exactly these
+        let (i, j) = (3usize, n - 5);
+        let mut muts: Vec<(&str, Vec<u8>)> = vec![];
+        { let mut t = f.sig.clone(); t[i] = t[i].wrapping_add(1); t[j] = t[j].wrapping_sub(1); muts.push(("+1 / -1 on two bytes (sum preserved)", t)); }
+        { let mut t = f.sig.clone(); t[i] ^= 0x20; t[j] ^= 0x20; muts.push(("the same bit flipped in two bytes (XOR preserved)", t)); }
+        { let mut t = f.sig.clone(); let k = (0..n).find(|&k| t[k] != t[i]).unwrap_or(j); t.swap(i, k); muts.push(("two unequal bytes swapped (multiset preserved)", t)); }
+        { let mut t = f.sig.clone(); t[..n].rotate_left(1); muts.push(("c~ rotated by one byte", t)); }
+        { let mut t = f.sig.clone(); let d = 0x80u8.min(255 - t[i]).max(1); t[i] = t[i].wrapping_add(d); t[i + 1] = t[i + 1].wrapping_sub(d); muts.push(("+d / -d on adjacent bytes", t)); }
+        for (name, t) in muts {
+            if t[..n] != f.sig[..n] { emit_verify::<S>(out, &format!("4f forged base, c~ changed with an aggregate preserved: {} (reject)", name), &f.pk, &mp, &t, &[], "pure", true); }
+        }
     }
     // family 3u: hint bits toggled on coefficients whose low part sits on a boundary of UseHint (r0 = 0, +-1, gamma2,
     // -gamma2+1): FIPS 204 rejects every one (the commitment changes), an implementation whose UseHint slips at such a
